@@ -261,6 +261,51 @@ fn tree_family(acc: &mut Acc, seed: u64, n: usize) {
     }
 }
 
+/// Metamorphic monitor (real vs real): `a.nested_in(any().repeated().to_slice())` on `w` against `a` run
+/// directly on `w` — the nested parse sees exactly the same tokens, so acceptance, the output and the
+/// number and kind of reported errors (emitted ones *and* the final failure, also when the nested parse
+/// fails after having emitted) must be the same.
+fn nested_vs_direct<'s>(acc: &mut Acc, ga: &G, bufs: &'s [Buf], enumerated: bool) {
+    let direct = ga.clone().numbered();
+    let nest = G::bin(Op::NestedIn, ga.clone(), G::rep(G::leaf(Op::Any), 0, None, Flav::Unit)).numbered();
+    let o = Opts { wrap: false, ..Opts::default() };
+    let pd = build::<&str, Rich<char>>(&direct, o);
+    let pn = build::<&str, Rich<char>>(&nest, o);
+    // error kinds modulo node ids (the two grammars are numbered differently)
+    fn kinds(r: &RunOut) -> Vec<String> {
+        // "E12.0" -> "E.0", "T3" -> "T", "C4:short" -> "C:short"
+        fn no_id(c: &str) -> String {
+            let head: String = c.chars().take_while(|x| x.is_alphabetic()).collect();
+            let rest: String = c.chars().skip(head.chars().count()).skip_while(|x| x.is_ascii_digit()).collect();
+            format!("{}{}", head, rest)
+        }
+        r.errs.iter().map(|e| match &e.custom { Some(c) => format!("custom {}", no_id(c)), None => "syntax".to_string() }).collect()
+    }
+    for buf in bufs {
+        acc.evaluations += 1;
+        let a = guarded(|| run_parse(&pd, buf, 0, STEP_BUDGET));
+        let b = guarded(|| run_parse(&pn, buf, 0, STEP_BUDGET));
+        if let (Ok(a), Ok(b)) = (a, b) {
+            acc.count("nested_vs_direct_comparisons", 1);
+            let emitted_and_failed = !a.has_output && a.errs.len() >= 2;
+            if emitted_and_failed {
+                acc.count("nested_vs_direct_failing_after_emission", 1);
+                note_nontrivial(acc, enumerated, || format!("nvd|{}|{}", ga.show(), buf.text));
+            }
+            let d = if a.has_output != b.has_output {
+                Some(format!("acceptance differs: direct {} vs nested {}", a.has_output, b.has_output))
+            } else if kinds(&a) != kinds(&b) {
+                Some(format!("reported errors differ: direct {:?} vs nested {:?}", a.errs.iter().map(|e| e.show()).collect::<Vec<_>>(), b.errs.iter().map(|e| e.show()).collect::<Vec<_>>()))
+            } else {
+                None
+            };
+            if let Some(d) = d {
+                acc.viol(Viol::case(format!("C16: a.nested_in(<the whole input>) vs a applied directly: {}", d), &nest, &buf.chars, json!({"direct": direct.show()})));
+            }
+        }
+    }
+}
+
 pub fn run(cx: &RunCtx) -> i32 {
     let alpha: Vec<char> = vec!['a', 'b', 'é'];
     let max_len = cx.t(4, 5);
@@ -331,6 +376,18 @@ pub fn run(cx: &RunCtx) -> i32 {
 
     // token trees
     let n_trees = cx.t(40_000, 1_000_000);
+    // (1b) nested vs direct
+    let mut mb = classes::k01_core(false);
+    mb.ctors.extend(classes::rep_light());
+    mb.ctors.extend(classes::validate_ctors());
+    mb.ctors.push(ctor(2, |k| G::new(Op::RecVia, k)));
+    let mgs: Vec<G> = mb.up_to(cx.t(4, 5)).into_iter().filter(|g| g.any_node(&|n| matches!(n.op, Op::Validate | Op::RecVia))).collect();
+    let m_bufs: Vec<Buf> = all_inputs(&['a', 'b', 'é'], cx.t(3, 4)).iter().map(|w| Buf::new(w)).collect();
+    let n_meta = mgs.len();
+    let macc = for_each_index(mgs.len(), cx.threads, 8, |acc, gi| nested_vs_direct(acc, &mgs[gi], &m_bufs, true));
+    acc.merge(macc);
+    acc.count("nested_vs_direct_grammars", n_meta as u64);
+
     let tacc = for_each_index(16, cx.threads, 1, |acc, shard| {
         tree_family(acc, seed.wrapping_mul(31).wrapping_add(shard as u64), n_trees / 16);
     });
@@ -340,14 +397,14 @@ pub fn run(cx: &RunCtx) -> i32 {
         cx,
         acc,
         Finish {
-            rule: format!("(1) every grammar with <= {size} nodes over the K02 basis + validate + probes containing >= 1 a.nested_in(b.to_slice()) x every input <= {max_len} over {{a,b,é}} on &[char] (and every 2nd input on &str and on a gapped-span mapped slice); {n_shaped} shaped grammars (nested parse followed by a tail / inside a choice / a repetition / an abandoned option / nested two and three levels deep, with validate emitters and probes inside); {n_rand} random grammars x 5 inputs; parse and check mode; compared with the reference semantics: the inner grammar runs on exactly the tokens b consumed and must match them completely, the outer input advances by exactly b's extent, inner emissions surface, an inner failure makes the nested parser fail (enclosing choices/repetitions backtrack), inspector state continues through the inner parse. (2) {n_trees} random token trees (tokens A,B,C,Group(children) with gapped spans, depth <= 4) parsed by a recursive nested_in grammar `A (B | Group)* C?` — strict, and lenient where an enclosing choice falls back to `any group` when the nested parse fails — against an independent recursive recogniser. Non-trivial: the reference evaluation ran >= 1 nested parse / the tree contains a group"),
+            rule: format!("(1b) metamorphic, real vs real: for every grammar a (<= 4/5 nodes, with validate emitters / via_parser recovery) and every small input w, a.nested_in(any().repeated().to_slice()) on w must give the same acceptance, output and the same number and kinds of reported errors as a on w, in particular when the nested parse fails after having emitted; (1) every grammar with <= {size} nodes over the K02 basis + validate + probes containing >= 1 a.nested_in(b.to_slice()) x every input <= {max_len} over {{a,b,é}} on &[char] (and every 2nd input on &str and on a gapped-span mapped slice); {n_shaped} shaped grammars (nested parse followed by a tail / inside a choice / a repetition / an abandoned option / nested two and three levels deep, with validate emitters and probes inside); {n_rand} random grammars x 5 inputs; parse and check mode; compared with the reference semantics: the inner grammar runs on exactly the tokens b consumed and must match them completely, the outer input advances by exactly b's extent, inner emissions surface, an inner failure makes the nested parser fail (enclosing choices/repetitions backtrack), inspector state continues through the inner parse. (2) {n_trees} random token trees (tokens A,B,C,Group(children) with gapped spans, depth <= 4) parsed by a recursive nested_in grammar `A (B | Group)* C?` — strict, and lenient where an enclosing choice falls back to `any group` when the nested parse fails — against an independent recursive recogniser. Non-trivial: the reference evaluation ran >= 1 nested parse / the tree contains a group"),
             exhaustive: false,
             exhaustive_note: format!("grammars <= {size} nodes with >= 1 nested_in x inputs <= {max_len} on &[char]: complete"),
             assumptions: vec![
                 "A6: spans of errors produced inside a nested input are not compared (only their presence, order and content); the code has a TODO about translating them".into(),
                 "spans of values produced inside a nested &str/&[char] are relative to the inner input; the harness re-bases them by the start of the region before comparing".into(),
             ],
-            require: vec![("nested_parses_in_model".into(), 10_000), ("nested_parses_failed_in_model".into(), 1000), ("nested_parses_incomplete_in_model".into(), 1000), ("inner_emissions_surfaced".into(), 1000), ("backtracked_over_failed_nested_parse".into(), 1000), ("primary_error_from_inner_failure".into(), 1000), ("token_tree_accepted".into(), 1000), ("token_tree_backtracked_over_failed_nested_parse".into(), 100), ("max_token_tree_depth".into(), 4)],
+            require: vec![("nested_parses_in_model".into(), 10_000), ("nested_parses_failed_in_model".into(), 1000), ("nested_parses_incomplete_in_model".into(), 1000), ("inner_emissions_surfaced".into(), 1000), ("backtracked_over_failed_nested_parse".into(), 1000), ("primary_error_from_inner_failure".into(), 1000), ("token_tree_accepted".into(), 1000), ("token_tree_backtracked_over_failed_nested_parse".into(), 100), ("max_token_tree_depth".into(), 4), ("nested_vs_direct_comparisons".into(), 10_000), ("nested_vs_direct_failing_after_emission".into(), 100)],
             min_evaluations: 10_000,
         },
     )
